@@ -1,0 +1,38 @@
+//go:build verif
+
+package analyzer
+
+import "sync"
+
+// Verification hooks (build tag `verif`): add-only helpers for an external harness.
+
+// VerifResetGlobals puts the process-wide engine cache back into the state of a fresh process,
+// so that several flag configurations can be exercised in one process.
+func VerifResetGlobals() {
+	globalEngineMu.Lock()
+	defer globalEngineMu.Unlock()
+	globalEngine = nil
+	globalEngineErrored = false
+	runnerStatePool = sync.Pool{}
+}
+
+// VerifEngineState reports the two cache variables (engine present, sticky failure flag).
+func VerifEngineState() (hasEngine, errored bool) {
+	globalEngineMu.Lock()
+	defer globalEngineMu.Unlock()
+	return globalEngine != nil, globalEngineErrored
+}
+
+// VerifLoadedGroups lists the groups of the cached engine (nil when there is none).
+func VerifLoadedGroups() []string {
+	globalEngineMu.Lock()
+	defer globalEngineMu.Unlock()
+	if globalEngine == nil {
+		return nil
+	}
+	var names []string
+	for _, g := range globalEngine.LoadedGroups() {
+		names = append(names, g.Name)
+	}
+	return names
+}
